@@ -60,7 +60,6 @@ package flight12
 //@ loop #3: config-kept: sameSlice(cfg.EllipticCurves, old(cfg.EllipticCurves))
 //@ end
 
-
 // Extended master secret (RFC 7627 5.2/5.3): a side configured to require it does not install keys
 // for, or accept the Finished of, an abbreviated handshake that did not negotiate it. Stated as a
 // precondition of the two resumption steps, so that it is proved at their call sites in the hello
@@ -81,3 +80,22 @@ package flight12
 //@ ensures suite-not-offered-aborts: called("FindMatchingCipherSuite!") && !retBool("FindMatchingCipherSuite!", 1) ==> next == 0 && dtlsAlert != nil && err != nil
 //@ ensures suite-checked-against-own-list: called("handleResumption!") || (next == Flight5 && called("ciphersuite.ForID!")) ==> called("FindMatchingCipherSuite!") && retBool("FindMatchingCipherSuite!", 1) && sameSlice(argAs("FindMatchingCipherSuite!", 1, cfg.LocalCipherSuites), old(cfg.LocalCipherSuites))
 //@ end
+
+// Server, abbreviated handshake (RFC 7301 3.2): the ALPN answer on the resumption ServerHello is decided
+// from the server's own configured list and the list the client offered - the same decision function
+// as on a full handshake; no common protocol is answered with a fatal no_application_protocol alert.
+//@ func flight4bGenerate
+//@ watch ALPNProtocolSelection! NegotiateSRTP!
+//@ requires args: state != nil && cache != nil && cfg != nil && state.Common != nil && state.CipherSuite != nil
+//@ ensures alpn-from-both-lists: called("ALPNProtocolSelection!") ==> sameSlice(argAs("ALPNProtocolSelection!", 0, cfg.SupportedProtocols), old(cfg.SupportedProtocols)) && sameSlice(argAs("ALPNProtocolSelection!", 1, state.PeerSupportedProtocols), old(state.PeerSupportedProtocols))
+//@ ensures alpn-no-overlap-aborts: called("ALPNProtocolSelection!") && retErr("ALPNProtocolSelection!", 1) != nil ==> result0 == nil && result1 != nil && result1.Level == alert.Fatal && result1.Description == alert.NoApplicationProtocol && result2 != nil
+//@ ensures srtp-from-own-profiles: called("NegotiateSRTP!") ==> sameSlice(argAs("NegotiateSRTP!", 1, cfg.LocalSRTPProtectionProfiles), old(cfg.LocalSRTPProtectionProfiles))
+//@ ensures srtp-failure-aborts: called("NegotiateSRTP!") && retErr("NegotiateSRTP!", 1) != nil ==> result0 == nil && result2 != nil
+//@ ensures alpn-always-decided: result2 == nil && result1 == nil ==> ncalls("ALPNProtocolSelection!") == 1
+//@ end
+
+// Client, ServerKeyExchange (RFC 5246 7.4.3 / 7.4.1.4.1): the (hash, signature) pair the server signed with must be
+// one of the pairs this client allows (cfg.LocalSignatureSchemes): clause initializeCipherSuite/post:scheme-pair-offered
+// in verif_contracts_c03.go; initializeCipherSuite is in the verify list of C11 as well. (A second statement in the
+// negative form - no list entry matches both components ==> VerifyKeySignature is never called and the handshake
+// aborts - is discharged by the solvers only in 8-30 s on the returns after the chain check: not stated.)
